@@ -23,7 +23,7 @@ RULE = ('raw property graphs (1-12 nodes, random edges, 0-6 properties per node/
         'serialized in both formats and imported through every entry point on both stores. One evaluation = one '
         '(model, format, entry point) round trip; a case is distinct by (content hash, format, entry point, store) '
         'and non-trivial if the model has >=1 edge and >=1 property value with a character outside [A-Za-z0-9]')
-REQUIRED_ALL = ['rt:GRAPHML', 'rt:JSON_NODELINK', 'ep:from_string_newid', 'ep:from_string_noid', 'ep:from_string_direct',
+REQUIRED_ALL = ['scenario:interleaved', 'rt:GRAPHML', 'rt:JSON_NODELINK', 'ep:from_string_newid', 'ep:from_string_noid', 'ep:from_string_direct',
             'ep:from_file_newid', 'ep:from_file_direct', 'ep:topology_load_string', 'ep:topology_load_file',
             'ep:topology_load_string_newid', 'store:shared', 'store:disjoint', 'markup-checked', 'second-generation',
             'src:raw-api', 'src:raw-storage', 'src:repo-file', 'src:topology', 'validated-copy']
@@ -260,6 +260,48 @@ def round_trip(env, store, graph, src_desc, fmts=None, eps=None):
                     imp.delete_graph(graph_id=g2.graph_id)
 
 
+def scenario_interleaved(env, store, graph, src_desc):
+    """Programs of several imports: a copy of the model stays in the store, the source grows by one node, and is then
+    serialized and imported again KEEPING its graph id (direct import).  Both the re-imported model and the retained
+    copy must hold exactly what they held, and the copy must still re-serialize to its own content."""
+    from fim.graph.abc_property_graph import GraphFormat
+    ctx = env.ctx
+    imp, cls = env.imps[store]
+    gid = graph.graph_id
+    rng = ctx.rng
+    fmt = rng.choice([GraphFormat.GRAPHML, GraphFormat.JSON_NODELINK])
+    parser = parse_graphml if fmt == GraphFormat.GRAPHML else parse_nodelink
+    w = {'store': store, 'format': fmt.name, 'source': src_desc.get('source'), 'case': src_desc.get('case'), 'scenario': 'interleaved'}
+    try:
+        text1 = graph.serialize_graph(format=fmt)
+        copy_id = fresh_id('keep')
+        imp.import_graph_from_string(graph_string=text1, graph_id=copy_id)
+        copy_before = canon.graph_snapshot(imp, copy_id)
+        graph.add_node(node_id=fresh_id('late-node'), label='NetworkNode', props={'Name': 'late', 'Type': 'VM'})
+        want = canon.graph_snapshot(imp, gid)
+        text2 = graph.serialize_graph(format=fmt)
+        ep = rng.choice(['from_string_direct', 'from_file_direct', 'topology_load_string', 'topology_load_file'])
+        g2, _ = do_import(env, store, ep, text2, gid)
+        ctx.count('scenario:interleaved')
+        ctx.seen(['interleaved', __import__('vlib.core', fromlist=['digest']).digest(want), fmt.name, ep, store], src_desc.get('nontrivial', True))
+        got = canon.graph_snapshot(imp, gid)
+        if not canon.typed_equal(got, want):
+            ctx.violation('C01/reimport-keeping-id-differs', 're-importing a model under its own graph id while another model lives in the '
+                          'store yields exactly the same content', dict(w, entry_point=ep, diff=canon.diff(want, got)))
+        copy_after = canon.graph_snapshot(imp, copy_id)
+        if not canon.typed_equal(copy_after, copy_before):
+            ctx.violation('C01/reimport-damages-retained-copy', 'a copy imported earlier keeps its content when the source is imported again',
+                          dict(w, entry_point=ep, diff=canon.diff(copy_before, copy_after)))
+        else:
+            c2 = cls(graph_id=copy_id, importer=imp)
+            parsed, _ = parser(c2.serialize_graph(format=fmt))
+            if not canon.typed_equal(strip_gid(parsed), copy_before):
+                ctx.violation('C01/retained-copy-reserializes-differently', 'serializing the copy again gives the same content',
+                              dict(w, diff=canon.diff(copy_before, strip_gid(parsed))))
+    except Exception as e:
+        ctx.violation('C01/interleaved-scenario-raises', f'{type(e).__name__}: {str(e)[:200]}', w)
+
+
 # --------------------------------------------------------------------------- sources
 def src_raw(env, rng, i):
     store = 'shared' if i % 2 == 0 else 'disjoint'
@@ -349,6 +391,8 @@ def run(ctx):
             if i < 2:
                 ctx.sample({'store': s, 'desc': d['case']})
             round_trip(env, s, g, d)
+            if i % 3 == 0:
+                scenario_interleaved(env, s, g, d)
             env.imps[s][0].delete_all_graphs()
             if ctx.out_of_time():
                 break
@@ -358,6 +402,7 @@ def run(ctx):
             except ImportError:
                 break
             round_trip(env, s, g, d)
+            scenario_interleaved(env, s, g, d)
             env.imps[s][0].delete_all_graphs()
             if ctx.out_of_time():
                 break
